@@ -22,7 +22,8 @@ from mapproxy.compat.image import Image, ImageColor, ImageChops, ImageMath
 from mapproxy.compat.image import has_alpha_composite_support
 from mapproxy.image import BlankImageSource, ImageSource
 from mapproxy.image.opts import create_image, ImageOptions
-from mapproxy.image.mask import mask_image
+from mapproxy.image.mask import mask_image, mask_polygons, image_mask_from_geom
+from mapproxy.srs import SRS
 
 import logging
 log = logging.getLogger('mapproxy.image')
@@ -132,10 +133,12 @@ class LayerMerger(LayerMerger):
 
         # apply global clip coverage
         if coverage:
+            # replace everything outside of the coverage with the background,
+            # pixels inside keep their color and alpha
             bg = create_image(size, image_opts)
-            mask = mask_image(result, bbox, bbox_srs, coverage)
-            bg.paste(result, (0, 0), mask)
-            result = bg
+            geom = mask_polygons(bbox, SRS(bbox_srs), coverage)
+            outside = image_mask_from_geom(result.size, bbox, geom)
+            result.paste(bg, (0, 0), outside)
 
         return ImageSource(result, size=size, image_opts=image_opts, cacheable=cacheable)
 
